@@ -645,7 +645,8 @@ int __CPROVER_uninterpreted_wday(Z ord);
 
 weekday get_weekday(fields cs)
 __CPROVER_requires(OVALID(cs))
-__CPROVER_ensures((int)RV == WDAY(ODAY(cs)) && 0 <= (int)RV && (int)RV <= 6)
+__CPROVER_ensures((int)RV == WDAY(ODAY(cs)))
+__CPROVER_ensures(0 <= (int)RV && (int)RV <= 6)
 __CPROVER_assigns();
 
 int get_yearday(fields cs)
